@@ -481,4 +481,58 @@ Section Validate.
             else validate_patterns ps' s
         end
     end.
+
+  (* lys_compile_type_patterns() (src/schema_compile_node.c): the compiled pattern array of a type is a copy
+     of the array of its base type (lysc_patterns_dup), followed by one NEW element per pattern statement of
+     the type itself, in source order; the new element - not the element with the index of the parsed
+     statement - is inverted iff the statement carries modifier invert-match (arg.str[0] is the NACK byte).
+     A parsed pattern is (inverted, code); compiling the expression to a code is lys_compile_type_pattern_check
+     (rewrite above + PCRE2) and is kept abstract here. *)
+  Definition compile_type_patterns (base : list pattern) (parsed : list (bool * code)) : list pattern :=
+    base ++ map (fun q => {| pat_code := snd q; pat_inverted := fst q |}) parsed.
+
+  (* a typedef chain: levels are the pattern statements of the innermost typedef (on the built-in string),
+     of the typedef derived from it, ..., of the type statement of the leaf itself (any of them may be empty) *)
+  Fixpoint chain_patterns (base : list pattern) (levels : list (list (bool * code))) : list pattern :=
+    match levels with
+    | [] => base
+    | l :: ls => chain_patterns (compile_type_patterns base l) ls
+    end.
+
+  (* lys_compile_type_() case LY_TYPE_STRING: a string type has an optional length restriction (parts min..max in
+     characters) and patterns. A level of a typedef chain is (its length statement if it has one, its pattern
+     statements). Length: the own statement is compiled (lys_compile_type_range also checks that it restricts the
+     base's - not modelled, the generators nest the lengths), else the base's is duplicated. Patterns: when the
+     level has pattern statements, lys_compile_type_patterns() on the base's patterns, else the base's are
+     duplicated - the two restrictions are handled independently of each other. *)
+  Definition length_restr := list (N * N).
+  Record str_type := { st_length : option length_restr; st_patterns : list pattern }.
+
+  Definition compile_string_type (base : str_type) (lvl : option length_restr * list (bool * code)) : str_type :=
+    {| st_length := match fst lvl with
+                    | Some l => Some l                                (* if (type_p->length) *)
+                    | None => st_length base                          (* else if (base && base->length) lysc_range_dup *)
+                    end;
+       st_patterns := match snd lvl with
+                      | [] => st_patterns base                        (* else if (base && base->patterns) lysc_patterns_dup *)
+                      | ps => compile_type_patterns (st_patterns base) ps   (* if (type_p->patterns) *)
+                      end |}.
+
+  Fixpoint chain_type (base : str_type) (levels : list (option length_restr * list (bool * code))) : str_type :=
+    match levels with
+    | [] => base
+    | l :: ls => chain_type (compile_string_type base l) ls
+    end.
+
+  Definition string_builtin : str_type := {| st_length := None; st_patterns := [] |}.
+
+  (* lyplg_type_store_string() (src/plugins_types/string.c): length in characters first, then the patterns *)
+  Definition in_length (r : length_restr) (n : N) : bool :=
+    existsb (fun p => (fst p <=? n) && (n <=? snd p)) r.
+
+  Definition validate_string (t : str_type) (nchars : N) (s : bytes) : res bool :=
+    match st_length t with
+    | Some r => if in_length r nchars then validate_patterns (st_patterns t) s else Ok false
+    | None => validate_patterns (st_patterns t) s
+    end.
 End Validate.
